@@ -56,6 +56,21 @@ def boundary_stream(rng, delta):
     return s + b''.join(rng.randrange(XA).to_bytes(8, 'little') for _ in range(3)) + rng.randrange(XA // 2).to_bytes(8, 'little')
 
 
+def digit_edge_stream(rng, pos, first):
+    """the first draw for digit `pos` is exactly `first` (|x|-1 is the largest admissible digit; |x|, |x|+1 and 2^64-1 must be
+    redrawn); all other digits are small enough for the candidate to stay below r"""
+    s = b''
+    for i in range(4):
+        if i == pos:
+            s += first.to_bytes(8, 'little')
+            if first >= XA:
+                s += rng.randrange(XA // 2).to_bytes(8, 'little')
+        else:
+            s += rng.randrange(XA // 2 if i == 3 else XA).to_bytes(8, 'little')
+    # spare draws (only consumed by an implementation that redraws more or less often than specified)
+    return s + b''.join(rng.randrange(XA // 2).to_bytes(8, 'little') for _ in range(8))
+
+
 def make_stream(rng, digit_rej, outer_rej):
     """byte stream that forces the requested numbers of rejections before an acceptable draw"""
     def digit(v, nrej):
@@ -129,6 +144,17 @@ def worker(sh):
             g.add('gt.mulrand %s %s' % (enc[t], stream.hex()), 'rand', t, stream)
             g.add('rc.pox.random %s' % stream.hex(), 'prand', stream)
             g.add('c.wkd_random_gt %s' % stream.hex(), 'wkdgt', stream)
+    if sh.index < 8:
+        # a digit draw exactly on the rejection boundary, for every digit position
+        for pos in range(4):
+            for first in (XA, XA - 1, XA + 1, (1 << 64) - 1)[sh.index % 2::2] if sh.quick else (XA, XA - 1, XA + 1, (1 << 64) - 1):
+                if pos == 3 and first == XA - 1:
+                    continue        # c3 = |x|-1 is the outer-rejection case, driven above
+                stream = digit_edge_stream(rng, pos, first)
+                t = rng.choice(logs[1:])
+                g.add('gt.mulrand %s %s' % (enc[t], stream.hex()), 'rand', t, stream)
+                g.add('rc.pox.random %s' % stream.hex(), 'prand', stream)
+                g.add('c.wkd_random_gt %s' % stream.hex(), 'wkdgt', stream)
     for _ in range(sh.pick(4, 60)):
         stream = rng.getrandbits(8 * 8 * 40).to_bytes(8 * 40, 'little')
         g.add('gt.mulrand %s %s' % (enc[rng.choice(logs)], stream.hex()), 'rand', logs[0], stream)
